@@ -57,7 +57,7 @@ theorem keepsProg_by_term {val : Val} {voters : List Id} {n : Nat} {s : Spec.Sta
       RaftInv val voters n r1 (s1.nodes n) s1.msgs → r1.term = m.term → KeepsProg r1 →
       Spec (Raft.step (fuel + 1) m) r1 (fun _ r' => KeepsProg r')) :
     Spec (Raft.step (fuel + 1) m) r (fun _ r' => KeepsProg r') :=
-  spec_by_term hinv hreach hty h0 hp (fun s1 r1 hreach1 hmsgs _ hinv1 ht1 _ hr1 =>
+  spec_by_term hinv hreach hty h0 hp (fun _ => hp) (fun s1 r1 hreach1 hmsgs _ hinv1 ht1 _ hr1 =>
     hsame s1 r1 hreach1 hmsgs hinv1 ht1 (by
       rcases hr1 with rfl | hf
       · exact hp
